@@ -490,6 +490,23 @@ func (g *vgen) text(n int) []byte {
 			b = append(b, byte(32+g.r.intn(95)))
 		}
 	}
+	// U+0000 is a character like any other: now and then inside the text, at its end, or both (a count that covers
+	// trailing NULs is still the count)
+	switch g.r.intn(8) {
+	case 0:
+		b = append(b, 0, 0)
+	case 1, 2:
+		// only a one-byte character may be overwritten (the text stays valid UTF-8)
+		for i := len(b) / 2; i < len(b); i++ {
+			if b[i] < 0x80 {
+				b[i] = 0
+				break
+			}
+		}
+		if len(b) > 2 && g.r.intn(2) == 0 {
+			b = append(b, 'x', 0)
+		}
+	}
 	return b
 }
 
@@ -672,4 +689,45 @@ func (s *vschema) bigReport(r *vrng, n int) (*sContainer, *gval) {
 		}
 	}
 	return c, v
+}
+
+// ---------------------------------------------------------------- recycled values, concurrent encoders, the top of the TLV range
+
+// recycleTop empties a decoded message / parameter for reuse the way applications recycle report structs: every slice
+// field of the top-level struct is cut to length 0 (its capacity, with whatever the elements held, stays), every other
+// field is zeroed
+func recycleTop(v reflect.Value) {
+	if v.Kind() != reflect.Struct {
+		v.Set(reflect.Zero(v.Type()))
+		return
+	}
+	for i := 0; i < v.NumField(); i++ {
+		f := v.Field(i)
+		if !f.CanSet() {
+			continue
+		}
+		if f.Kind() == reflect.Slice && !f.IsNil() {
+			f.Set(f.Slice(0, 0))
+		} else {
+			f.Set(reflect.Zero(f.Type()))
+		}
+	}
+}
+
+// topOfRange: Custom parameters whose total TLV size is just below, at and at the top of what the 16-bit length can say
+func (s *vschema) topOfRange(r *vrng) []*gval {
+	c := s.params["Custom"]
+	var out []*gval
+	for _, total := range []int{65531, 65532, 65534, 65535} {
+		data := make([]byte, total-12)
+		for i := range data {
+			data[i] = byte(r.next())
+		}
+		v := &gval{fs: []gf{{kind: 'n', u: 25882}, {kind: 'n', u: 7}, {kind: 'x', bytes: data}}}
+		for range c.Slots {
+			v.subs = append(v.subs, nil)
+		}
+		out = append(out, v)
+	}
+	return out
 }
